@@ -5,6 +5,7 @@ import (
 	"context"
 	"fmt"
 	"io"
+	"os"
 	"sort"
 	"strings"
 	"testing"
@@ -16,6 +17,8 @@ import (
 )
 
 func TestMain(m *testing.M) { vlib.Main(m) }
+
+var devNull, _ = os.OpenFile(os.DevNull, os.O_WRONLY, 0)
 
 type format int
 
@@ -47,6 +50,7 @@ type node struct {
 	skip     int
 	ctxKeys  int
 	wid      int // id of the private recording writer
+	addStyle bool
 	skipKids map[int]*node
 }
 
@@ -88,8 +92,20 @@ func (w *world) adopt(lg slog.Logger, parent *node, name string, inherit *node) 
 	}
 	n.wid = 100 + n.id
 	rec := vlib.NewRec(w.log, n.wid, 0).(io.Writer)
-	lg.SetWriter(rec)
-	lg.SetErrorWriter(rec)
+	if n.id%3 == 1 {
+		// the "add" way: the standard devices stay first in this logger's lists (pointed at /dev/null while
+		// the lists are built); lists of different loggers must stay independent
+		realOut, realErr := os.Stdout, os.Stderr
+		os.Stdout, os.Stderr = devNull, devNull
+		lg.ResetWriters()
+		lg.AddWriter(rec)
+		lg.AddErrorWriter(rec)
+		os.Stdout, os.Stderr = realOut, realErr
+		n.addStyle = true
+	} else {
+		lg.SetWriter(rec)
+		lg.SetErrorWriter(rec)
+	}
 	if parent != nil {
 		parent.children = append(parent.children, n)
 	}
@@ -778,6 +794,7 @@ func (w *world) step() {
 			rec := vlib.NewRec(w.log, n.wid, 0).(io.Writer)
 			n.lg.SetWriter(rec)
 			n.lg.SetErrorWriter(rec)
+			n.addStyle = false
 		}
 		w.labels["set"] = true
 	case k == 10: // package-level SetLevel: the default logger and future package-level loggers
